@@ -311,6 +311,26 @@ def c06_batches(seed, tier):
                             rng.shuffle(rnd)
                             sub = "pad" if dzsrc == "global" else ""
                             batches.append({"cfg": cfg, "cfgmode": "literal", "sub": sub, "walks": [up, down, rnd]})
+    # two handlers of one device deliver the same axis code (a stick and a touchpad both reporting ABS_X / ABS_Y): each has
+    # its own mapping entry, its own controller and its own memory of the last value - the reports are interleaved, the
+    # same raw value often arriving on one right after the other
+    for flip in (False, True):
+        for rname, mn, mx in ranges[:2]:
+            ax = {"ABS_X": axis("cc", cc=20, off=1, flip=flip, dzn=0, dzd=1),
+                  "Touchpad:ABS_X": axis("cc", cc=22, off=2, flip=not flip, dzn=1, dzd=10),
+                  "ABS_Y": axis("pitch_bend", off=3, dzn=0, dzd=1),
+                  "Touchpad:ABS_Y": axis("pitch_bend", off=4, flip=flip, dzn=0, dzd=1)}
+            info = {a: {"min": mn, "max": mx} for a in ax}
+            cfg = base_cfg(dChan=rng.randrange(16), maps=[{"name": "M1", "keys": {}, "axes": ax}], axinfo=info)
+            walks = []
+            for _ in range(3 if tier == "quick" else 12):
+                w = []
+                for _ in range(150):
+                    v = rng.choice([mn, mx, (mn + mx) // 2, rng.randint(mn, mx)])
+                    for a in rng.sample(sorted(ax), rng.choice([1, 2, 2, 4])):
+                        w.append({"ev": "axis", "a": a, "raw": v if rng.random() < 0.8 else rng.randint(mn, mx)})
+                walks.append(w)
+            batches.append({"cfg": cfg, "cfgmode": "literal", "sub": "", "walks": walks})
     return batches
 
 
